@@ -499,7 +499,27 @@ def run(ctx):
         tw = [w for w in q.field_writes(f, 'string_map::total_') if f.const_value(f.N(w)['ch'][1]) == 0]
         ctx.check(len(rs) >= 1 and all((f.const_value(f.args(i)[0]) or 0) >= 64 for i in rs) and len(tw) == 1, R12, 'string_map::%s:starts-empty-with-64-slots' % (f.short if f.kind != 'ctor' else 'string_map()'),
                   'the table does not start with total_ = 0 and at least 64 slots', f.where)
-    ctx.floor(R12, 3)
+    # lookup follows the probe sequence of insertion: next slot modulo the table size, left only on an empty slot or a match
+    for nm_ in ('insert', 'get'):
+        fs_ = [g for g in P.fns.values() if g.brecord == SM and g.short == nm_ and g.entry is not None]
+        okp = len(fs_) == 1
+        if okp:
+            g = fs_[0]
+            lp = [L for L in q.loops(g) if any(model.strip_targs(r).endswith('entry::key') for r in g.subtree_refs(g.N(L).get('cond', L) if g.N(L).get('cond', -1) not in (None, -1) else L))]
+            okp = len(lp) == 1
+            if okp:
+                L = lp[0]
+                pv = [r for r in g.subtree_refs(g.N(L)['cond']) if r.startswith('v:')]
+                ws_ = [w for r in pv for w in q.writes_to(g, r, L)]
+                esc = [j for j in g.walk(g.N(L)['body']) if g.N(j)['k'] in ('ReturnStmt', 'BreakStmt', 'GotoStmt')]
+                okp = len(ws_) == 1 and not esc
+                if okp:
+                    m_ = g.N(ws_[0])
+                    rhs = g.N(g.strip(m_['ch'][1])) if m_['k'] == 'BinaryOperator' and m_.get('op') == '=' else {}
+                    okp = rhs.get('k') == 'BinaryOperator' and rhs.get('op') == '%' and any(q.short_of(g.bcallee(c) or '') == 'size' for c in q.expr_calls_deep(g, rhs['ch'][1])) and \
+                        (lambda a_: a_['k'] == 'BinaryOperator' and a_.get('op') == '+' and g.ref_of(a_['ch'][0]) in pv and g.const_value(a_['ch'][1]) == 1)(g.N(g.strip(rhs['ch'][0])))
+        ctx.check(okp, R12, 'string_map::%s:probes-next-slot-modulo-size-until-empty-or-found' % nm_, 'the probe sequence is not "next slot modulo the table size, stop at an empty slot or a match": a variable that wrapped around on insertion is not found by name', fs_[0].where if fs_ else sadd.where)
+    ctx.floor(R12, 5)
     ctx.floor(R9, 2)
     ctx.floor(R6, 7)
     ctx.floor(R8, 5)
